@@ -58,6 +58,13 @@ def run(ctx):
         sb = verif.sample(ctx.rng, sb, 6000)
     res = ctx.run_engine(vh, "session", sb, opts={"prop": "C13"}, tag="session-revert")
     ctx.absorb(res)
+    nss = 8 if not ctx.thorough else 120
+    rs = ctx.tlc("MC_SessionOverlay", "Sim_SessionOverlay.cfg", simulate=max(1, nss // 4), depth=51,
+                 workers=4, timeout=1500, tag="sim-session")
+    ssim = storage_util.dedupe_by_prefix(rs.replays)
+    if sum(1 for b in ssim for s in b["h"] if s["r"] == "err") == 0:
+        raise verif.ToolError("no failing session operation in the simulation behaviours")
+    ctx.absorb(ctx.run_engine(vh, "session", ssim, opts={"prop": "C13"}, tag="session-sim"))
     # binding self-test: a revert whose expectation is perturbed must be noticed
     good = next(b for b in beh if b["e"]["o"] == "revert" and b["e"]["pv"])
     bad = json.loads(json.dumps(good))
